@@ -99,7 +99,7 @@ def main():
                 open(ev, "w").write(saved)
             viol = [l for l in out.splitlines() if l.startswith("VIOLATION")]
             what = [l for l in out.splitlines() if "violation:" in l][:3]
-            det[c] = {"exit": rc, "violation_lines": len(viol), "no_failing_input": any("no-failing-input-found" in l for l in viol),
+            det[c] = {"exit": rc, "violation_lines": len(viol), "no_failing_input": bool(viol) and all("no-failing-input-found" in l for l in viol),
                       "first": [w[:400] for w in what], "seconds": int(time.time() - t0)}
         conf["checks"] = det
         conf["detected"] = any(d["exit"] == 1 and d["violation_lines"] > 0 for d in det.values())
